@@ -1,8 +1,13 @@
 """C20 - Skipping validation never changes results; config is per-thread."""
+import asyncio
+import concurrent.futures
+import contextvars
+import functools
 import json
 import queue
 import sys
 import threading
+import time
 
 import numpy as np
 
@@ -651,6 +656,455 @@ def reentry_part(ctx):
                      dict(case, **bad), {'part': 'config', 'route': 'reentry-threads'})
 
 
+# ------------------------------------------------------------------ every way of starting a thread
+#
+# "Per thread" must hold for every way a program can get a second thread, not only for `threading.Thread(target=f)`:
+# thread pools (whose threads are re-used by later work), and all the routes that run the worker inside a COPY of the
+# starter's `contextvars` context - `asyncio.to_thread`, `loop.run_in_executor(None, copy_context().run, f)` (the
+# wrapper anyio / starlette use), `threading.Thread(target=copy_context().run, args=(f,))`, `pool.submit(copy_context()
+# .run, f)` - started by a thread that has (or has not yet) used the configuration itself, from plain code or from
+# inside a coroutine of a running event loop, by the importing thread or by a worker, to any depth.  The starter and its
+# workers then execute a stepped schedule of config atoms; expected values are computed here by the plain rule "a
+# thread only sees what was set in that very thread" (per-thread save/restore stack; a thread that never ran anything
+# starts from the default False; work that runs on a re-used pool thread starts from what earlier work left in that
+# thread).  Nothing of the implementation is consulted for the expected values.
+
+SPAWN_MODES = ['thread', 'pool', 'ctx_thread', 'ctx_pool', 'to_thread', 'loop_executor']
+SPAWN_BODIES = ['sync', 'sync', 'aio']
+MAX_AGENTS = 5
+
+
+def probe_unique_episodes():
+    """behavioural reading of the flag through an episode utility: a fractional episode feature is rejected"""
+    try:
+        pykoop.unique_episodes(np.array([0.0, 0.5, 1.0]))
+    except ValueError:
+        return True
+    return False
+
+
+def probe_pipeline():
+    """behavioural reading of the flag through a fitted pipeline: a NaN sample is rejected by transform"""
+    if 'kp' not in _PROBE:
+        rs = np.random.RandomState(7)
+        X = rs.uniform(-1, 1, (12, 2))
+        _PROBE['kp'] = pykoop.KoopmanPipeline(lifting_functions=[('p', pykoop.PolynomialLiftingFn(order=2))],
+                                              regressor=pykoop.Edmd()).fit(X)
+        Xb = X.copy()
+        Xb[3, 1] = np.nan
+        _PROBE['kp_bad'] = Xb
+    try:
+        with np.errstate(all='ignore'):
+            _PROBE['kp'].transform(_PROBE['kp_bad'])
+    except ValueError:
+        return True
+    return False
+
+
+PROBES = {'v': (validation_active, 'lifting function transform, NaN input'),
+          'u': (probe_unique_episodes, 'unique_episodes, fractional episode feature'),
+          'k': (probe_pipeline, 'KoopmanPipeline.transform, NaN sample')}
+
+
+class SAgent:
+    """one thread of a spawn schedule: executes atoms on command (also the atoms that start / end further threads)"""
+
+    def __init__(self, ident, body):
+        self.id = ident
+        self.body = body                  # 'inline' (the harness thread), 'sync', 'aio' (inside asyncio.run)
+        self.q = queue.Queue()
+        self.r = queue.Queue()
+        self.started = threading.Event()
+        self.done = threading.Event()
+        self.thread_obj = None
+        self.held = []
+        self.kids = {}
+        self.loop = None
+        self.pool = None
+        self.error = None
+
+    # -- the thread body
+    def serve(self):
+        self.thread_obj = threading.current_thread()
+        self.started.set()
+        try:
+            if self.body == 'aio':
+                asyncio.run(self._aserve())
+            else:
+                self._serve()
+        except BaseException as ex:     # reported through the missing reply
+            self.error = repr(ex)
+        finally:
+            self.done.set()
+
+    def _next(self):
+        try:
+            return self.q.get(timeout=60)
+        except queue.Empty:
+            return None
+
+    def _serve(self):
+        try:
+            while True:
+                a = self._next()
+                if a is None:
+                    return
+                self.r.put(self.step(a))
+        finally:
+            self.cleanup()
+
+    async def _aserve(self):
+        try:
+            while True:
+                a = self._next()        # blocks the loop of this thread only; its workers run in executor threads
+                if a is None:
+                    return
+                if self._is_aio_op(a):
+                    try:
+                        status = await self._aio_op(a)
+                    except Exception as ex:
+                        status = 'error:' + type(ex).__name__
+                    self.r.put((status, pykoop.get_config().get('skip_validation')))
+                else:
+                    self.r.put(self.step(a))
+        finally:
+            futs = [h for how, h in self.kids.values() if how == 'aio']
+            if futs:
+                await asyncio.wait(futs, timeout=10)
+            self.cleanup()
+
+    def cleanup(self):
+        """a thread that ends leaves its open blocks in order"""
+        while self.held:
+            try:
+                self.held.pop().__exit__(None, None, None)
+            except Exception:
+                pass
+        if self.pool is not None:
+            self.pool.shutdown(wait=False)
+        if self.loop is not None:
+            try:
+                futs = [h for how, h in self.kids.values() if how == 'aio']
+                if futs:
+                    self.loop.run_until_complete(asyncio.wait(futs, timeout=10))
+                self.loop.close()
+            except Exception:
+                pass
+            self.loop = None
+
+    # -- atoms
+    def _is_aio_op(self, a):
+        kind, arg = a
+        if kind == 'P':
+            return arg[0] in ('to_thread', 'loop_executor')
+        if kind == 'J':
+            return self.kids.get(arg.id, ('', None))[0] == 'aio'
+        return False
+
+    async def _aio_op(self, a):
+        kind, arg = a
+        loop = asyncio.get_running_loop()
+        if kind == 'P':
+            mode, child = arg
+            if mode == 'to_thread':
+                fut = asyncio.ensure_future(asyncio.to_thread(child.serve))
+            else:
+                fut = loop.run_in_executor(None, functools.partial(contextvars.copy_context().run, child.serve))
+            self.kids[child.id] = ('aio', fut)
+            end = time.monotonic() + 15
+            while not child.started.is_set() and time.monotonic() < end:
+                await asyncio.sleep(0.001)
+            return 'ok' if child.started.is_set() else 'nostart'
+        child = arg
+        child.q.put(None)
+        fut = self.kids.pop(child.id)[1]
+        try:
+            await asyncio.wait_for(fut, 20)
+        except asyncio.TimeoutError:
+            return 'nojoin'
+        return 'ok'
+
+    def _sync_op(self, a):
+        kind, arg = a
+        if kind == 'P':
+            mode, child = arg
+            if mode in ('pool', 'ctx_pool') and self.pool is None:
+                self.pool = concurrent.futures.ThreadPoolExecutor(max_workers=MAX_AGENTS)
+            if mode == 'thread':
+                h = threading.Thread(target=child.serve, daemon=True)
+                h.start()
+            elif mode == 'ctx_thread':
+                h = threading.Thread(target=contextvars.copy_context().run, args=(child.serve, ), daemon=True)
+                h.start()
+            elif mode == 'pool':
+                h = self.pool.submit(child.serve)
+            elif mode == 'ctx_pool':
+                h = self.pool.submit(contextvars.copy_context().run, child.serve)
+            else:
+                raise ValueError(mode)
+            self.kids[child.id] = ('thread' if isinstance(h, threading.Thread) else 'cf', h)
+            return 'ok' if child.started.wait(15) else 'nostart'
+        child = arg
+        child.q.put(None)
+        how, h = self.kids.pop(child.id)
+        if how == 'thread':
+            h.join(20)
+            return 'nojoin' if h.is_alive() else 'ok'
+        try:
+            h.result(timeout=20)
+        except concurrent.futures.TimeoutError:
+            return 'nojoin'
+        return 'ok'
+
+    def step(self, a):
+        kind, arg = a
+        status = 'ok'
+        try:
+            if kind == 's':
+                pykoop.set_config(skip_validation=arg)
+            elif kind in PROBES:
+                status = 'on' if PROBES[kind][0]() else 'off'
+            elif kind == 'E':
+                cm = pykoop.config_context(skip_validation=arg)
+                cm.__enter__()
+                self.held.append(cm)
+            elif kind in ('X', 'R'):
+                if self.held:
+                    cm = self.held.pop()
+                    if kind == 'X':
+                        cm.__exit__(None, None, None)
+                    else:
+                        try:
+                            raise Boom()
+                        except Boom:
+                            cm.__exit__(*sys.exc_info())
+            elif kind in ('P', 'J'):
+                if self._is_aio_op(a):
+                    # plain code that owns an event loop and runs it only to start / await its workers
+                    if self.loop is None:
+                        self.loop = asyncio.new_event_loop()
+                    status = self.loop.run_until_complete(self._aio_op(a))
+                else:
+                    status = self._sync_op(a)
+        except Exception as ex:
+            status = 'error:' + type(ex).__name__
+        return status, pykoop.get_config().get('skip_validation')
+
+    def do(self, a):
+        if self.body == 'inline':
+            return self.step(a)
+        self.q.put(a)
+        return self.r.get(timeout=45)
+
+
+def gen_spawn_sched(rng, n_atoms, directed=False):
+    """atoms [agent, kind, arg]; 'P' [mode, body] starts the next agent from `agent`, 'J' c ends agent c (a leaf) and
+    waits for it in its starter"""
+    kinds = ['g', 'g', 's', 's', 's', 'E', 'E', 'X', 'X', 'R', 'v', 'u', 'k', 'P', 'P', 'J']
+    alive, parent, nkids, nxt = [0], {}, {0: 0}, 1
+    sched = []
+
+    def spawn(t):
+        nonlocal nxt
+        sched.append([t, 'P', [rng.choice(SPAWN_MODES), rng.choice(SPAWN_BODIES)]])
+        alive.append(nxt)
+        parent[nxt] = t
+        nkids[nxt] = 0
+        nkids[t] += 1
+        nxt += 1
+
+    def setting():
+        return rng.choice([True, True, False, None])
+    # the starter has (usually) used the configuration before it starts its first worker
+    for _ in range(rng.choice([0, 1, 1, 2, 3])):
+        k = rng.choice(['g', 's', 'E', 'v', 'k'])
+        sched.append([0, k, setting() if k in ('s', 'E') else None])
+    spawn(0)
+    if directed:
+        # both directions while the two overlap: the worker changes its setting and the starter reads / computes, the
+        # worker goes back, the starter changes its setting and the worker reads / computes
+        a, b = (0, 1) if rng.random() < 0.5 else (1, 0)
+        for x, y in ((a, b), (b, a)):
+            k = rng.choice(['s', 'E'])
+            sched.append([x, k, True])
+            sched.append([y, rng.choice(['g', 'v', 'u', 'k']), None])
+            sched.append([x, 'X', None] if k == 'E' else [x, 's', False])
+            if rng.random() < 0.5:
+                sched.append([y, rng.choice(['g', 'v', 'u', 'k']), None])
+    for _ in range(n_atoms):
+        t = rng.choice(alive)
+        k = rng.choice(kinds)
+        if k == 'P':
+            if nxt >= MAX_AGENTS:
+                k = 's'
+            else:
+                spawn(t)
+                continue
+        if k == 'J':
+            leaves = [c for c in alive if c != 0 and nkids[c] == 0]
+            if not leaves:
+                k = 'g'
+            else:
+                c = rng.choice(leaves)
+                sched.append([parent[c], 'J', c])
+                alive.remove(c)
+                nkids[parent[c]] -= 1
+                # what the starter reads / computes after its worker has ended
+                sched.append([parent[c], rng.choice(['g', 'v', 'u', 'k']), None])
+                continue
+        sched.append([t, k, setting() if k in ('s', 'E') else None])
+    return sched
+
+
+def run_spawn(sched, root):
+    """-> (discrepancy or None, stats).  root: 'inline' (the harness thread is agent 0), 'sync' or 'aio' (agent 0 is a
+    plain thread started by the harness)"""
+    agents = {0: SAgent(0, root)}
+    how = {0: 'the harness thread' if root == 'inline' else 'plain thread' + (' running asyncio.run' if root == 'aio' else '')}
+    parent = {}
+    stats = {'replies': 0, 'modes': [], 'ended': 0, 'reused': 0, 'aborted': None, 'agents': 1, 'aio_worker': 0,
+             'from_coroutine': 0, 'from_worker': 0}
+    keep = []                                               # thread objects stay referenced: their id() is a key
+    left = {}                                               # id(thread object) -> setting left behind in that thread
+    root_thread = None
+    if root == 'inline':
+        pykoop.set_config(skip_validation=False)
+        agents[0].thread_obj = threading.current_thread()
+    else:
+        root_thread = threading.Thread(target=agents[0].serve, daemon=True)
+        root_thread.start()
+        agents[0].started.wait(15)
+    cur = {0: False}
+    stack = {0: []}
+    alive = [0]
+    bad = None
+
+    def describe(t):
+        return f'thread {t} ({how[t]}' + (f', started by thread {parent[t]}' if t in parent else '') + ')'
+    todo = [list(a) for a in sched]
+    i = -1
+    try:
+        while True:
+            i += 1
+            if i >= len(todo):
+                # every worker that still runs is ended by its starter (leaf first), and the starter reads again
+                rest = [c for c in alive if c != 0]
+                if not rest:
+                    break
+                todo.append([parent[max(rest)], 'J', max(rest)])
+            t, k, arg = todo[i]
+            if t not in alive:
+                stats['aborted'] = f'atom {i} addresses a thread that is not running'
+                break
+            a = (k, arg)
+            child = None
+            if k == 'P':
+                child = SAgent(len(agents), arg[1])
+                a = ('P', (arg[0], child))
+            elif k == 'J':
+                if arg not in alive or parent.get(arg) != t:
+                    stats['aborted'] = f'atom {i} ends a thread that this thread did not start'
+                    break
+                a = ('J', agents[arg])
+            try:
+                status, got = agents[t].do(a)
+            except queue.Empty:
+                stats['aborted'] = f'no reply to atom {i} ({agents[t].error})'
+                break
+            stats['replies'] += 1
+            if status in ('nostart', 'nojoin') or status.startswith('error:'):
+                stats['aborted'] = f'atom {i} {k}: {status}'
+                break
+            if k == 's':
+                if arg is not None:
+                    cur[t] = arg
+            elif k == 'E':
+                stack[t].append(cur[t])
+                if arg is not None:
+                    cur[t] = arg
+            elif k in ('X', 'R'):
+                if stack[t]:
+                    cur[t] = stack[t].pop()
+            elif k == 'P':
+                c = child.id
+                agents[c] = child
+                parent[c] = t
+                alive.append(c)
+                how[c] = arg[0] + (' running asyncio.run' if arg[1] == 'aio' else '')
+                stats['modes'].append(arg[0])
+                stats['aio_worker'] += 1 if arg[1] == 'aio' else 0
+                stats['from_coroutine'] += 1 if agents[t].body == 'aio' else 0
+                stats['from_worker'] += 1 if t != 0 else 0
+                stats['agents'] += 1
+                keep.append(child.thread_obj)
+                key = id(child.thread_obj)
+                if key in left:
+                    stats['reused'] += 1                    # work on a re-used pool thread: same thread, same setting
+                cur[c] = left.get(key, False)
+                stack[c] = []
+            elif k == 'J':
+                c = arg
+                alive.remove(c)
+                stats['ended'] += 1
+                # the ending thread left its open blocks in order
+                left[id(agents[c].thread_obj)] = stack[c][0] if stack[c] else cur[c]
+            if k in PROBES and status != ('off' if cur[t] else 'on'):
+                bad = {'atom': i, 'thread': t, 'expected': cur[t], 'observed': status == 'off',
+                       'at': f'computation ({PROBES[k][1]}: ' + ('accepted' if status == 'off' else 'rejected') + ')'}
+            elif got is not cur[t]:
+                bad = {'atom': i, 'thread': t, 'expected': cur[t], 'observed': got,
+                       'at': ('(closing the schedule) ' if i >= len(sched) else '') + 'get_config after ' + {'P': f'starting thread {len(agents) - 1}',
+                                                    'J': f'thread {arg} has ended'}.get(k, f'atom {k} {arg}')}
+            if bad is not None:
+                bad['threads'] = '; '.join(describe(u) for u in sorted(agents))
+                break
+    finally:
+        # leaf first; nobody waits long here
+        for c in sorted(agents, reverse=True):
+            if c in alive and c != 0:
+                agents[c].q.put(None)
+        if root == 'inline':
+            agents[0].cleanup()
+            pykoop.set_config(skip_validation=False)
+        else:
+            agents[0].q.put(None)
+        for c in sorted(agents, reverse=True):
+            if c != 0 or root != 'inline':
+                agents[c].done.wait(5 if (bad or stats['aborted']) else 20)
+    return bad, stats
+
+
+def spawn_part(ctx):
+    """direct oracle: fails with the concrete schedule"""
+    validation_active()
+    probe_pipeline()                                        # fitted once, here, before any thread uses it
+    for i in range(ctx.n(70, 700)):
+        sched = gen_spawn_sched(ctx.rng, ctx.rng.randint(6, 18 if ctx.tier == 'quick' else 36), directed=(i % 3 == 0))
+        root = ['inline', 'sync', 'inline', 'aio'][i % 4]
+        bad, stats = run_spawn(sched, root)
+        case = {'spawn_schedule': sched, 'root': root}
+        ctx.record_case(case, True)
+        ctx.count('spawn:schedules')
+        ctx.count('spawn:settings_compared', stats['replies'])
+        ctx.count('spawn:workers_ended_then_starter_read', stats['ended'])
+        for m in stats['modes']:
+            ctx.count('spawn:start:' + m)
+        ctx.count('spawn:worker_runs_an_event_loop', stats['aio_worker'])
+        ctx.count('spawn:started_from_a_coroutine', stats['from_coroutine'])
+        ctx.count('spawn:started_by_a_worker', stats['from_worker'])
+        if stats['reused']:
+            ctx.count('spawn:work_on_reused_pool_thread', stats['reused'])
+        if stats['aborted']:
+            ctx.count('spawn:aborted')
+            ctx.notes.append('spawn schedule aborted: ' + str(stats['aborted']))
+        if bad is not None:
+            ctx.fail(f"threads started in every way (plain, pool, inside a copy of the starter's contextvars context: "
+                     f"asyncio.to_thread, run_in_executor, copy_context().run): thread {bad['thread']} {bad['at']}: "
+                     f"skip_validation is {bad['observed']}, the setting made in this very thread is {bad['expected']} "
+                     f"(a change made in another thread is observed) [{bad['threads']}]",
+                     dict(case, **bad), {'part': 'config', 'route': 'spawn'})
+
+
 # ------------------------------------------------------------------ flag irrelevance
 
 def computations(case, est, kp, K):
@@ -794,13 +1248,29 @@ def run(ctx):
                 'interleaving (a block stays open in one thread while another enters / leaves the same object): after '
                 'every step get_config() (and, at probes, whether a NaN input is rejected) must equal the setting given '
                 'by a plain per-thread save/restore stack computed by the harness; an entry the implementation refuses '
-                '(an object that cannot be entered again) must leave the setting unchanged')
+                '(an object that cannot be entered again) must leave the setting unchanged; (d) every way of getting '
+                'a second thread: threading.Thread, thread-pool work (also on a re-used pool thread), and workers that '
+                'run inside a COPY of the starter\'s contextvars context - asyncio.to_thread, loop.run_in_executor(None, '
+                'copy_context().run, f), Thread(target=copy_context().run), pool.submit(copy_context().run, f) - started '
+                'by the importing thread or by a worker, from plain code or from a coroutine of a running event loop, '
+                'before or after the starter has used the configuration, workers starting further workers: starter and '
+                'workers execute a stepped schedule of set_config / config_context enter / exit (normal, by exception) '
+                'atoms; after every atom get_config() in the acting thread, and at probes three computations '
+                '(lifting-function transform and KoopmanPipeline.transform of a NaN sample, unique_episodes of a '
+                'fractional episode feature: rejected iff validation is on), must show the setting made in that very '
+                'thread - in both directions, while the threads overlap, and in the starter after a worker has ended '
+                '(every worker is ended by its starter, which then reads again)')
     ctx.explanation = ('theorems C20_* about the config machine (context restore incl. exceptions, thread isolation for '
                        'every interleaving, fresh-thread default, compile soundness); correspondence with real threads; '
                        'flag irrelevance is a correspondence/oracle result under the guard that all values stay finite; '
                        'the machine has one saved value per ENTRY of a block - that the implementation keeps it per '
                        'entry and not per context object (re-entry through the decorator protocol, sharing between '
-                       'threads) is a direct oracle on the implementation (coverage keys reentry:*)')
+                       'threads) is a direct oracle on the implementation (coverage keys reentry:*); the machine '
+                       'identifies a thread by its index - that the implementation keys its store by the THREAD and '
+                       'not by something a new thread can inherit from its starter (a copied contextvars context, as '
+                       'made by asyncio.to_thread / run_in_executor wrappers) is a direct oracle as well (coverage keys '
+                       'spawn:*; expected values from a per-thread save/restore stack kept by the harness, a never-used '
+                       'thread starts from the default, work on a re-used pool thread from what was left in that thread)')
     ctx.proof_obligations('Properties.C20', THEOREMS)
     drv = ctx.get_driver()
     lines, meta = [], []
@@ -879,6 +1349,8 @@ def run(ctx):
     ctx.extra['nonfinite_cases_seen'] = n_nonfinite
     # every public way of using one config_context object (with / decorator / re-entered while active / shared by threads)
     reentry_part(ctx)
+    # every way of getting a second thread (plain / pool / copy of the starter's contextvars context / asyncio)
+    spawn_part(ctx)
 
     def search(ctx):
 
@@ -894,6 +1366,12 @@ def replay(ctx, path):
         r = run_reprog(case['pool'], case['start'], case['reentry_prog'], case.get('thread') == 'worker')
         print('re-run:', 'no result' if r is None else (r.bad or 'settings as expected'))
         return 1 if (r is None or r.bad) else 0
+    if isinstance(case, dict) and 'spawn_schedule' in case:
+        validation_active()
+        probe_pipeline()
+        bad, stats = run_spawn(case['spawn_schedule'], case['root'])
+        print('re-run:', bad or stats['aborted'] or 'settings as expected')
+        return 1 if bad else 0
     if isinstance(case, dict) and 'reentry_schedule' in case:
         bad, _ = run_resched(case['pool'], [tuple(a) for a in case['reentry_schedule']], case['threads'])
         print('re-run:', bad or 'settings as expected')
